@@ -237,9 +237,9 @@ int main() {
                         vs::step(w2);
                         for (size_t i = e0; i < r->events.size(); ++i) if (r->events[i][0] == 1) running[w2] = r->events[i][1];
                     }
-                    if (!r->pool->m_queue.empty() && !r->stopped && r->everStopped)
+                    if (!r->pool->m_queue.empty() && !r->stopped && r->everStopped && r->maxw != 0)
                         r->complain("C08: a start() after stop() does not work again: the submitted task is never taken although the pool was neither stopped nor cleared since");
-                    if (!r->pool->m_queue.empty() && !r->stopped)
+                    if (!r->pool->m_queue.empty() && !r->stopped && r->maxw != 0)   // (with a maximum of 0 threads nothing ever runs: outside C07)
                         r->complain("C07: " + std::to_string(r->pool->m_queue.size()) + " submitted task(s) are still queued although no worker can make progress and the pool was neither stopped nor cleared (" +
                                     std::to_string(r->pool->getThreadCount()) + " thread(s), " + std::to_string(r->pool->getActiveThreadCount()) + " active)");
                 }
